@@ -72,6 +72,8 @@ def WFE (σ : MState) : CExpr → Bool
   | .call _ _ _ _ => false
   | .stmtexpr _ _ _ => false
   | .seqexpr _ _ _ _ _ => false
+  | .callx _ _ _ _ _ => false
+  | .xmacro _ _ _ => false
 def WFEs (σ : MState) : List CExpr → List CT → Bool
   | [], _ => true
   | _ :: _, [] => true
